@@ -405,6 +405,14 @@ def synthetic(ctx, driver):
                     elif ans.get("ok") != want:
                         ctx.violation(case, want, got, ORACLES["last_registered_wins"] if len(carriers) >= 2 else ORACLES["alias_resolves"],
                                       tags=dict(clause="last_registered_wins" if len(carriers) >= 2 else "alias_resolves", where="synthetic"))
+                    elif len(carriers) >= 2 and ans.get("ok") != max(carriers):
+                        # the property read literally: of all classes sharing the alias the one *registered last*
+                        # (ids are creation order) wins.  The implementation's documented search order (later
+                        # sibling branches first, descendants before ancestors) deviates when the last-registered
+                        # carrier sits below an *earlier* sibling: a genuine, recorded finding (KNOWN_FINDINGS F16).
+                        ctx.violation(case, max(carriers), got,
+                                      "when classes share an alias the one registered last (globally) is built",
+                                      tags=dict(clause="last_registered_global", deviation="dfs_sibling_order"))
                     elif ans.get("kw") or ans.get("nargs"):
                         ctx.violation(case, "no arguments", ans, "from_alias(alias) passes no arguments", tags=dict(clause="from_alias_args"))
                     impl = ("ok %d" % ans["ok"]) if "ok" in ans else "err:" + ans["err"]
